@@ -149,7 +149,41 @@ struct Acc {
     failed: bool,
 }
 
+static CASE_STARTED_MS: std::sync::atomic::AtomicU64 = std::sync::atomic::AtomicU64::new(0);
+static CURRENT_CASE: std::sync::Mutex<String> = std::sync::Mutex::new(String::new());
+
+fn now_ms() -> u64 {
+    std::time::SystemTime::now().duration_since(std::time::UNIX_EPOCH).map(|d| d.as_millis() as u64).unwrap_or(0)
+}
+
+/// A case that runs longer than this (wall clock) is a harness problem or a hang in a sync
+/// call: the shard exits with status 2 (inconclusive), never with a violation.
+pub fn start_watchdog(limit_s: u64) {
+    std::thread::spawn(move || loop {
+        std::thread::sleep(std::time::Duration::from_millis(500));
+        let st = CASE_STARTED_MS.load(std::sync::atomic::Ordering::Relaxed);
+        if st != 0 && now_ms().saturating_sub(st) > limit_s * 1000 {
+            let case = CURRENT_CASE.lock().map(|c| c.clone()).unwrap_or_default();
+            eprintln!("WATCHDOG: one case exceeded {limit_s}s wall clock; case = {case}");
+            let dir = verif_dir().join("replays");
+            let _ = std::fs::create_dir_all(&dir);
+            let _ = std::fs::write(dir.join(format!("watchdog-{}.json", std::process::id())), case);
+            std::process::exit(2);
+        }
+    });
+}
+
 fn eval_one<P: Part>(case: &P::Case, acc: &mut Acc, known: &[KnownFinding], count: bool) -> Result<(), Violation> {
+    if let Ok(mut c) = CURRENT_CASE.lock() {
+        *c = serde_json::to_string(&ReplayFile { property: P::PROP.to_string(), part: P::PART.to_string(), signature: "watchdog".into(), message: String::new(), case: case.clone() }).unwrap_or_default();
+    }
+    CASE_STARTED_MS.store(now_ms(), std::sync::atomic::Ordering::Relaxed);
+    let r = eval_one_inner::<P>(case, acc, known, count);
+    CASE_STARTED_MS.store(0, std::sync::atomic::Ordering::Relaxed);
+    r
+}
+
+fn eval_one_inner<P: Part>(case: &P::Case, acc: &mut Acc, known: &[KnownFinding], count: bool) -> Result<(), Violation> {
     let out = match std::panic::catch_unwind(std::panic::AssertUnwindSafe(|| P::run(case, false))) {
         Ok(o) => o,
         Err(e) => {
